@@ -80,6 +80,9 @@ func c01World(tp *Tape, env *Env) (*Plan, *Violation) {
 	if g.outlier == "rounds" {
 		maxOps = 260
 	}
+	if g.bigRounds {
+		maxOps = 2000
+	}
 	if g.outlier != "" {
 		env.St.probe("world.size_outlier")
 	}
